@@ -149,13 +149,16 @@ pub fn build(kind: &str, route: &str, len: usize, runs: &Runs) -> AnyBv {
                     RLVector::from(b)
                 },
                 "zero_runs" => {
-                    // Zero-length runs (documented no-ops) are issued between the two halves of every run.
+                    // Zero-length runs and set_len calls that do not extend (documented no-ops) are issued between the two halves of every run.
                     let mut b = RLBuilder::new();
                     for (s, l) in runs.iter() {
                         let first = (*l + 1) / 2;
                         b.try_set(*s, first).unwrap();
                         b.try_set(*s + *l + 3, 0).unwrap();
                         b.try_set(*s + first, 0).unwrap();
+                        // set_len to the current or a smaller length is documented to have no effect
+                        b.set_len(*s + first);
+                        b.set_len(*s);
                         if *l > first { b.try_set(*s + first, *l - first).unwrap(); }
                     }
                     b.set_len(len);
@@ -207,6 +210,14 @@ where T: BitVec<'a> + Rank<'a> + Select<'a> + SelectZero<'a> + PredSucc<'a> {
         "sel0i" => enc_pair(bv.select_zero_iter(a).next()),
         "pred" => enc_pair(bv.predecessor(a).next()),
         "succ" => enc_pair(bv.successor(a).next()),
+        // the item after the first one of the returned iterator
+        "seli2" => enc_pair(bv.select_iter(a).nth(1)),
+        "sel0i2" => enc_pair(bv.select_zero_iter(a).nth(1)),
+        "pred2" => enc_pair(bv.predecessor(a).nth(1)),
+        "succ2" => enc_pair(bv.successor(a).nth(1)),
+        // ... reached by stepping
+        "pred3" => enc_pair({ let mut it = bv.predecessor(a); it.next(); it.next(); it.next() }),
+        "succ3" => enc_pair({ let mut it = bv.successor(a); it.next(); it.next(); it.next() }),
         _ => panic!("TOOL-ERROR: unknown query {}", op),
     }
 }
@@ -215,7 +226,7 @@ where T: BitVec<'a> + Rank<'a> + Select<'a> + SelectZero<'a> + PredSucc<'a> {
 pub const PANIC_TOKEN: i64 = -8;
 
 pub fn is_pair_op(op: &str) -> bool {
-    matches!(op, "seli" | "sel0i" | "pred" | "succ")
+    matches!(op, "seli" | "sel0i" | "pred" | "succ" | "seli2" | "sel0i2" | "pred2" | "succ2" | "pred3" | "succ3")
 }
 
 impl AnyBv {
@@ -533,6 +544,13 @@ pub fn record_object(out: &mut TraceOut, rng: &mut Rng, label: &str, kind: &str,
     emit("sel0i", &sel0, true, None);
     emit("pred", &pos, true, None);
     emit("succ", &pos, true, None);
+    // the iterators returned by the queries keep going: their second and third items
+    emit("pred2", &pos, true, None);
+    emit("succ2", &pos, true, None);
+    emit("pred3", &pos, false, None);
+    emit("succ3", &pos, false, None);
+    emit("seli2", &sel, false, None);
+    emit("sel0i2", &sel0, false, None);
     if let AnyBv::RL(rv) = &bv {
         out.push(json!({"e": "runs", "d": def_line, "items": run_iter_items(rv)}));
     }
